@@ -36,12 +36,19 @@ pub fn reg_resp<Q: GraphQLQuery + 'static>(r: &mut Registry, key: &str) where Q:
         let b = match serde_json::from_str::<Q::ResponseData>(&v.to_string()) {
             Ok(x) => json!({"ok": true, "reser": ser(&x)}),
             Err(e) => json!({"ok": false, "err": e.to_string()}) };
-        json!({"ok": a["ok"], "reser": a["reser"], "err": a["err"], "str": b})
+        // third route: reader deserializer (every string is transient: visit_str, never borrowed / owned)
+        let c = match serde_json::from_reader::<_, Q::ResponseData>(v.to_string().as_bytes()) {
+            Ok(x) => json!({"ok": true, "reser": ser(&x)}),
+            Err(e) => json!({"ok": false, "err": e.to_string()}) };
+        json!({"ok": a["ok"], "reser": a["reser"], "err": a["err"], "str": b, "rdr": c})
     }));
     r.m.insert(format!("envelope:{key}"), Box::new(|v| {
-        match serde_json::from_value::<graphql_client::Response<Q::ResponseData>>(v.clone()) {
+        let rdr = match serde_json::from_reader::<_, graphql_client::Response<Q::ResponseData>>(v.to_string().as_bytes()) {
             Ok(x) => json!({"ok": true, "reser": ser(&x)}),
-            Err(e) => json!({"ok": false, "err": e.to_string()}) }
+            Err(e) => json!({"ok": false, "err": e.to_string()}) };
+        match serde_json::from_value::<graphql_client::Response<Q::ResponseData>>(v.clone()) {
+            Ok(x) => json!({"ok": true, "reser": ser(&x), "rdr": rdr}),
+            Err(e) => json!({"ok": false, "err": e.to_string(), "rdr": rdr}) }
     }));
 }
 
@@ -420,7 +427,13 @@ class Factory:
                 continue
             disc = discover(insp)
             self.disc[cid] = disc
-            text = support_code(c) + g["pretty"]
+            if c.get("delivery") == "derive" and not c.get("from_string"):
+                # the derive delivery form: what the user writes (attribute items in a per-case order), expanded by the proc
+                # macro inside rustc; the probes reach the same types as in the library form (names discovered above)
+                from .props.c02 import derive_source
+                text = support_code(c) + derive_source(c, "../in/%s.schema.%s" % (cid, c.get("schema_ext", "graphql")), "../in/%s.query.graphql" % cid)
+            else:
+                text = support_code(c) + g["pretty"]
             if not check_only:
                 text += register_fn(cid, disc)
             srcs[cid] = text
